@@ -282,7 +282,7 @@ pub fn judge_painted(text: &str, st: &StatsView, c: &Case) -> Result<(), (String
 
 /// Injects the case's samples into a real `BenchContext`, computes the
 /// statistics and paints the leaf (last child, name "bench").
-pub fn inject_and_paint(c: &Case) -> Result<(StatsView, String), String> {
+pub fn inject_and_paint(c: &Case, is_last: bool) -> Result<(StatsView, String), String> {
     let n = c.durations.len();
     if c.allocs.len() != n || c.counters.iter().any(|k| matches!(k, CounterSpec::PerInput(v) if v.len() != n)) {
         return Err("malformed case".into());
@@ -302,7 +302,7 @@ pub fn inject_and_paint(c: &Case) -> Result<(StatsView, String), String> {
         CounterSpec::PerInput(v) => Some((true, v.clone())),
     });
     run.inject(c.sample_size, &c.durations, &allocs, &counts);
-    let (painted, text) = capture::stdout(|| run.paint_leaf("bench", true, 12, c.binary));
+    let (painted, text) = capture::stdout(|| run.paint_leaf("bench", is_last, 12, c.binary));
     match painted {
         Ok(stats) => Ok((stats, text)),
         Err(e) => Err(format!("panic: {e}")),
